@@ -186,7 +186,7 @@ fn build(case: &Case, base: &Path) -> Result<Built, String> {
                 wrap(&Codec::Tar { format: 0, pos: 0, decoys: 1, mtime: 1, longname: false }, &data, &d, &stem_name, member)?;
             }
             Kind::Utmp => {
-                let ff = FixedFile { layout: 0, recs: (0..case.messages.max(1)).map(|k| FRec { sec: 1_600_000_000 + k as i64, usec: 0, null: 0, pid: 100 + i as i32, typ: 6, serial: (i * 8 + k as usize) as u32, full: 0, stale: 0 }).collect() };
+                let ff = FixedFile { layout: 0, recs: (0..case.messages.max(1)).map(|k| FRec { sec: 1_600_000_000 + k as i64, usec: 0, null: 0, pid: 100 + i as i32, typ: 6, serial: (i * 8 + k as usize) as u32, full: 0, stale: 0, addr: [0; 4] }).collect() };
                 std::fs::write(&p, ff.render()).map_err(|e| e.to_string())?;
             }
             Kind::Tiny { len } => {
